@@ -92,7 +92,7 @@ var intAtoms = []struct {
 var floatAtoms = []struct {
 	src string
 	v   float64
-}{{"1", 1}, {"2", 2}, {"0.5", 0.5}, {"2.5", 2.5}, {"10", 10}, {"x", 1.5}, {"3", 3}, {"(2)", 2}, {"4.0", 4}}
+}{{"1", 1}, {"2", 2}, {"0.5", 0.5}, {"2.5", 2.5}, {"10", 10}, {"x", 1.5}, {"3", 3}, {"(2)", 2}, {"4.0", 4}, {"'a'", 97}, {`'\n'`, 10}, {"0x10", 16}, {"1e1", 10}}
 var strAtoms = []struct{ src, v string }{{`"q"`, "q"}, {"s", "a<b"}, {`"x y"`, "x y"}, {"e", ""}, {"ls[0]", "l0"}}
 
 func atom(src string) *enode { return &enode{op: "atom", src: src, level: lvAtom} }
